@@ -8,6 +8,7 @@ import ExoModel.Lemmas.Exec
 import ExoModel.Lemmas.Rewrites
 import ExoModel.DataLaws
 import ExoModel.Lemmas.RewriteAt
+import ExoModel.Lemmas.Reach
 
 set_option linter.unusedSectionVars false
 namespace Exo.C01
@@ -222,6 +223,36 @@ theorem fission (i : Sym) (lo hi : Expr) (A B : List Stmt) (par : Bool) (σ : St
     simp only []
     rw [execS_loop ext i lo hi B par σ1 l h hl1 hh1 hle]
     cases iterate (loopStep ext i B) (h - l).toNat l σ1 <;> exact ExEq.refl _
+
+/-! ### conditional rewrites inside a context -/
+
+/-- **conditional congruence**: a rewrite `B ↦ B'` that is sound on every state in which control
+    reaches its position (the side conditions of scheduling rewrites — loop bounds, guards,
+    assertions — are facts about exactly those states) yields an equivalent procedure, at any
+    depth of loops and branches -/
+theorem rewrite_in_context (C : Ctx) (B B' : List Stmt) (nm : String) (args : List FnArg)
+    (preds : List Expr)
+    (h : ∀ (V : Type) [DataAlg V] (ext : String → List V → V) (σ₀ σ : State V),
+        Reach ext C B σ₀ σ → ExLe (execL ext B σ) (execL ext B' σ)) :
+    Equiv (fun _ => False) (.mk nm args preds (C.fill B)) (.mk nm args preds (C.fill B')) :=
+  equiv_of_reach_le C B B' nm args preds h
+
+/-- `cut_loop` anywhere in a procedure: if in every state reaching the loop `lo ≤ mid ≤ hi`
+    (what `Check_CompareExprs` is asked to establish) and the bounds do not read configuration
+    state, the procedure with the loop cut at `mid` is equivalent to the original -/
+theorem cut_loop_in_context (C : Ctx) (i : Sym) (lo mid hi : Expr) (body : List Stmt) (par : Bool)
+    (nm : String) (args : List FnArg) (preds : List Expr)
+    (fm : mid.cfgFree = true) (fh : hi.cfgFree = true)
+    (side : ∀ (V : Type) [DataAlg V] (ext : String → List V → V) (σ₀ σ : State V),
+        Reach ext C [.loop i lo hi body par] σ₀ σ →
+        ∃ l m h, evalC σ lo = .ok l ∧ evalC σ mid = .ok m ∧ evalC σ hi = .ok h ∧ l ≤ m ∧ m ≤ h) :
+    Equiv (fun _ => False)
+      (.mk nm args preds (C.fill [.loop i lo hi body par]))
+      (.mk nm args preds (C.fill [.loop i lo mid body par, .loop i mid hi body par])) := by
+  refine rewrite_in_context C _ _ nm args preds (fun V _ ext σ₀ σ hr => ?_)
+  obtain ⟨l, m, h, hl, hm, hh, hlm, hmh⟩ := side V ext σ₀ σ hr
+  rw [cut_loop ext i lo mid hi body par σ l m h hl hm hh hlm hmh fm fh]
+  exact ExLe.refl _
 
 /-! ### fuse (ifs) -/
 
